@@ -168,7 +168,20 @@ BROKEN_TOML = [
     'version = 01\n',
     'version = 1\n[a.b]\nc = 1\n[a]\nb = 2\n',
     '\x00version = 1\n',
+    # wrong values that are too long to be quoted back in a message (Python refuses to print integers of more than 4300 digits)
+    'version = 1\n[[annotations]]\npath = "a.txt"\nprecedence = 0x' + "f" * 5000 + '\n',
+    'version = 1\n[[annotations]]\npath = 0x' + "f" * 5000 + '\n',
+    'version = 1\n[[annotations]]\npath = "a.txt"\nSPDX-FileCopyrightText = [0o' + "7" * 6000 + ']\n',
+    'version = 1\n[[annotations]]\npath = "a.txt"\nprecedence = false\n',
+    'version = 1\n[[annotations]]\npath = "a.txt"\nprecedence = ""\n',
+    'version = 1\n[[annotations]]\npath = "a.txt"\nprecedence = []\n',
+    'version = 1\n[[annotations]]\npath = "a.txt"\nprecedence = 0\n',
 ]
+
+# .gitmodules is a project file as well: whatever it holds, the commands end with a documented status
+BROKEN_GITMODULES = [b'[submodule "x"]\n\tpath =\n\turl = u\n', b'[submodule "x"]\n\tpath\n', b'[submodule "x"]\n\tpath = caf\xe9\n\turl = u\n',
+                     b'[submodule "x"]\n\tpath = "two\\nlines"\n', b'[submodule "x"\n', b'\x00\xff garbage', b'[submodule "x"]\n\tpath = ../outside\n',
+                     b'[submodule "x"]\n\tpath = /abs/olute\n', b'[submodule "a"]\n\tpath = sub\n[submodule "b"]\n\tpath = sub\n', b'']
 
 BAD_EXPRESSIONS = ["MIT AND OR (", "( )", "( OR MIT", "( AND +", "( ) ) (", "MIT WITH", ")(", "MIT OR OR 0BSD", "( ( )", "()"]
 
@@ -241,6 +254,8 @@ def generate(tier, seed):
         cases.append({"kind": "dep5-trunc", "off": off})
     for j in range(len(BROKEN_TOML)):
         cases.append({"kind": "toml-broken", "j": j})
+    for j in range(len(BROKEN_GITMODULES)):
+        cases.append({"kind": "gitmodules", "j": j})
     nflip = 120 if tier == "quick" else 30000
     for k in range(nflip):
         cases.append({"kind": "flip", "k": k})
@@ -309,6 +324,16 @@ def run_case(case, ctx):
                 judge(res, run_command(cmd, root), "broken", fault, cmd, names=(where,), detail=text)
                 res.sigs.add(short_hash(fault, cmd))
             res.cell("broken-toml")
+        elif kind == "gitmodules":
+            trees.git_init(root)
+            (root / ".gitmodules").write_bytes(BROKEN_GITMODULES[case["j"]])
+            (root / "sub").mkdir(exist_ok=True)
+            (root / "sub" / "inner.py").write_text("x = 1\n")
+            fault = f"gitmodules:{case['j']}"
+            for cmd in ("lint", "lint-pool", "lint-file", "spdx", "annotate"):
+                judge(res, run_command(cmd, root), "grey", fault, cmd, allowed=(0, 1, 2))
+                res.sigs.add(short_hash(fault, cmd))
+            res.cell("broken-gitmodules")
         elif kind in ("toml-trunc", "dep5-trunc"):
             data = (VALID_TOML if kind == "toml-trunc" else VALID_DEP5).encode()[:case["off"]]
             if kind == "toml-trunc":
